@@ -8,6 +8,7 @@ from pv import generated, judges, plans
 
 ID = 'C11'
 TITLE = 'input validation, defaults, immutability'
+ANCHORS = ['plumpy.ports:PortNamespace.pre_process', 'plumpy.ports:Port.validate', 'plumpy.ports:PortNamespace.validate', 'plumpy.ports:PortNamespace.validate_ports', 'plumpy.ports:PortNamespace.validate_dynamic_ports', 'plumpy.processes:Process.on_create', 'plumpy.ports:InputPort.required_override']
 LEVEL = 'exploration'
 TECHNIQUE = ('runtime monitoring against a reference model + metamorphic relations: real Process construction on generated (input spec, nested input '
              'dictionary) pairs compared with an independent acceptance/default model; immutability and caller-dictionary probes on every accepted case')
